@@ -5,7 +5,7 @@ import ast
 from typing import List, Set
 
 from .. import q
-from ..core import AnchorError, Ctx, FuncInfo, dotted, guard_facts, norm, walk_no_nested
+from ..core import canon_fact, primary_facts, AnchorError, Ctx, FuncInfo, dotted, guard_facts, norm, walk_no_nested
 from ..rewrite import single_bindings
 
 ID = "C03"
@@ -123,8 +123,12 @@ def check_uncompute(ctx: Ctx):
     ok = len(apps) == 1 and [norm(a) for a in apps[0].args] == [g, ws, p]
     ctx.check(ok, "MP-reverse", fi, "same gate, same wires, same parameter", "", "the replayed gate is not the recorded gate on the recorded wires", apps[0] if apps else loop)
     if apps:
-        facts = [(norm(e), pol) for e, pol in guard_facts(fi, apps[0])]
-        ctx.check((f"{ws}[-1] in self.marked_ancillas", True) in facts, "DP-WIRES", fi, "replay iff the target (last wire) is marked", "", f"replay guard is {facts}", apps[0])
+        facts = [(norm(e), pol) for e, pol in guard_facts(fi, apps[0], duals=True)]
+        marked_facts = [(f, pol) for f, pol in facts if f.endswith(" in self.marked_ancillas") and " not in " not in f]
+        if not marked_facts:
+            ctx.undecided(fi.short, f"replay iff the target is marked: the replay is not guarded by a membership test in self.marked_ancillas (guards {facts})")
+        else:
+            ctx.check((f"{ws}[-1] in self.marked_ancillas", True) in facts, "DP-WIRES", fi, "replay iff the target (last wire) is marked", "", f"replay guard is {marked_facts}: the qubit a gate writes is its LAST wire", apps[0])
     # rebuild of gates_computed: not-replayed gates, original order
     st = [n for n in walk_no_nested(fi.node) if isinstance(n, ast.Assign) and norm(n.targets[0]) == "self.gates_computed"]
     if len(st) != 1:
@@ -133,15 +137,19 @@ def check_uncompute(ctx: Ctx):
     keep_app = [c for c in q.method_calls(loop, "append") if isinstance(c.func.value, ast.Name) and c.func.value.id == norm(core2)]
     in_else = False
     if keep_app and apps:
-        fk = [(norm(e), pol) for e, pol in guard_facts(fi, keep_app[0])]
+        fk = [(norm(e), pol) for e, pol in guard_facts(fi, keep_app[0], duals=True)]
         in_else = (f"{ws}[-1] in self.marked_ancillas", False) in fk
         elt = keep_app[0].args[0] if keep_app[0].args else None
         same_gate = isinstance(elt, ast.Tuple) and [norm(x) for x in elt.elts] == [g, ws, p]
         ctx.check(same_gate, "MP-rebuild", fi, "kept gates are recorded unchanged", "", "the kept gate record differs from the iterated one", keep_app[0])
-    ctx.check(bool(keep_app) and in_else and (par + par2) % 2 == 0, "MP-rebuild", fi, "gates_computed = gates not replayed, original order", f"{par}+{par2} reversals", "gates_computed is not rebuilt from exactly the non-replayed gates in their original order (a later uncompute would replay in the wrong order or replay undone gates)", st[0])
+    if not keep_app:
+        ctx.undecided(fi.short, f"gates_computed is rebuilt from `{norm(core2)}`, which is not a list appended to in the replay loop: outside the tables")
+    else:
+        ctx.check(in_else and (par + par2) % 2 == 0, "MP-rebuild", fi, "gates_computed = gates not replayed, original order", f"{par}+{par2} reversals", f"gates_computed is rebuilt from `{norm(core2)}` ({par}+{par2} reversals, kept under {fk if keep_app and apps else '?'}): it must hold exactly the non-replayed gates in their original order (a later uncompute would replay in the wrong order or replay undone gates)", st[0])
     # marked set handling
     txt = [norm(n) for n in fi.body]
-    ctx.check(any("self.marked_ancillas = self.marked_ancillas - uncomputed" in t or "self.marked_ancillas -= uncomputed" in t or "self.marked_ancillas.clear()" in t or "difference_update" in t for t in txt), "TS-ANC", fi, "uncomputed qubits leave the marked set", "", "marked ancillas are never cleared: they would be replayed again", fi.node)
+    upd = [n for n in ast.walk(fi.node) if (isinstance(n, (ast.Assign, ast.AugAssign)) and norm(n.targets[0] if isinstance(n, ast.Assign) else n.target) == "self.marked_ancillas") or (isinstance(n, ast.Call) and isinstance(n.func, ast.Attribute) and norm(n.func.value) == "self.marked_ancillas" and n.func.attr in ("clear", "difference_update", "discard", "remove"))]
+    ctx.check(bool(upd), "TS-ANC", fi, "uncomputed qubits leave the marked set", "; ".join(norm(u)[:60] for u in upd[:2]), "self.marked_ancillas is never updated after the replay: the same qubits would be replayed again by the next uncompute", fi.node)
     rets = q.returns(fi)
     ctx.check(all(r.value is not None for r in rets) and len(rets) >= 1, "TS-ANC", fi, "reports the uncomputed qubits", "", "uncompute() must return the qubits it reset (the compiler drops them from its expression cache)", fi.node)
 
@@ -163,7 +171,7 @@ def check_uncompute_all(ctx: Ctx):
     ctx.check(ok, "MP-reverse", fi, "same gate, same wires, same parameter", "", "the replayed gate is not the recorded gate on the recorded wires", apps[0] if apps else loop)
     if not apps:
         return
-    facts = [(norm(e), pol) for e, pol in guard_facts(fi, apps[0])]
+    facts = [(norm(e), pol) for e, pol in guard_facts(fi, apps[0], duals=True)]
     keep = fi.params[1]
     want = {
         "no-op gates skipped": lambda f, pol: (not pol) and "NopGate" in f,
@@ -201,7 +209,7 @@ def check_keep_flow(ctx: Ctx):
     all_facts = [(norm(e), pol) for e, pol in guard_facts(fi, ua[0])]
     facts = [f for f, pol in all_facts if pol]
     ctx.check("uncompute" in facts, "MP-flag", fi, "final replay under the uncompute flag", f"guards={facts}", "uncompute_all is not guarded by the uncompute flag", ua[0])
-    extra = [(f, pol) for f, pol in all_facts if not (pol and f in ("uncompute", "returns is not None"))]
+    extra = [(t, pol) for t, pol in (canon_fact(e, p_) for e, p_ in primary_facts(guard_facts(fi, ua[0]))) if (t, pol) not in (("uncompute", True), ("returns is None", False))]
     ctx.check(not extra, "MP-flag", fi, "final replay is not skipped for any other reason", "conditions: uncompute and returns is not None", f"the final replay is additionally conditioned on {[('' if pol else 'not ') + f for f, pol in extra]}: whenever that makes it skip, every named or shared intermediate qubit keeps its value (scratch is not returned to zero)", ua[0])
     # it is the last circuit-changing step
     idx = q.stmt_index(fi.body, ua[0])
